@@ -280,6 +280,19 @@ def run(p, report, tier):
         da = DefiniteAssignment(_it(f.node)).run()
         report.add("R20.3" if f in (g, q) else ("R20.1" if f is pw else "R20.2"), f.qual, "all locals bound before use",
                    f"{f.file}:{f.node.lineno}", not da.reports, detail="; ".join(da.reports), nontrivial=False)
+    # ---- R20.4 premises shared with C07 / C09
+    report.rule("R20.4", "the wrappers keep the wrapped strategy's order: the annotator count assigned to a chosen sample "
+                "is capped by its available annotators (shared with C07 R7.7), and the wrappers partition labels with "
+                "their own sentinel, never with the NaN default (shared with C09 R9.1)", floor=4)
+    from ..common import Report
+    from . import c07 as _c07, c09 as _c09
+    _c07.check_assignment_capped(p, report, "R20.4")
+    sub = Report("C09")
+    _c09.run(p, sub, "quick")
+    for o in sub.obligations:
+        if o.rule == "R9.1" and ("SubSamplingWrapper" in o.entity or "ParallelUtilityEstimationWrapper" in o.entity
+                                  or "SingleAnnotatorWrapper" in o.entity):
+            report.add("R20.4", o.entity, o.construct, o.loc, o.ok, detail=o.detail)
     report.assumptions += ["numerical equality of wrapped and unwrapped utilities is not decided",
                            "joblib.Parallel returns results in submission order"]
 
